@@ -90,7 +90,9 @@ TEXT = {
            "SetIdentity: for every history in which the adversary decides which listener answers behind each address, requests are processed only by "
            "the intended (cluster,node), dialers keep only verified connections, the lock is exclusive, a set identity is immutable. Tied to the "
            "code by driving the real connPool and server.handleConn over pipes for all identity pairs of a small domain plus random 64-bit ones, "
-           "and by concurrent lockDir / SetIdentity runs on real directories.",
+           "and by concurrent lockDir / SetIdentity runs on real directories. The pool's pairing of replies with requests is modelled too (Ident/Pool.v, "
+           "pool_replies_paired: whatever the peer does - answer in time, after the deadline, never - a reply handed to a caller answers the request "
+           "that call wrote, because a connection with a failed request is never pooled) and tied by scripted sequences through the real connPool.",
   "design_ref": "DESIGN.md 4.5, 5 (C20)",
   "note": "Trusted: Coq kernel, harness. Assumed: atomic link(2). Not modelled: a client that does not use the library's connection pool.",
   "technique": "Coq proof on handshake/lock state machines + differential execution of the real pool/server code",
@@ -126,7 +128,9 @@ TEXT = {
            "(one elected node per term; every leader was elected by a majority of recorded votes; one vote per (term, voter)). The vote layer's steps "
            "are what the node model's handlers do to (term, votedFor, role, votes counted); the node model (one Gallina function per Go handler) is "
            "tied to the code on every run by per-event differential execution on a deterministic simulator driving real *Raft values, and a monitor "
-           "looks for two leaders in one term on the implementation. PARTIAL where stated: voter-set changes need the overlap hypothesis of C08."
+           "looks for two leaders in one term on the implementation. The vote requests delivered in the simulator are the bytes the candidate's own "
+           "goroutines wrote, and the reply a candidate reads is the reply to the request it wrote (pool_replies_paired, real connPool against a "
+           "scripted peer). PARTIAL where stated: voter-set changes need the overlap hypothesis of C08."
            " Cluster-level tie (Props/AbsTie.v): whole-cluster histories observed on real nodes (static membership; snapshots, compaction and snapshot installation included) are checked on every run by the executable, proved-sound checker Abs/Exec.v to be runs of the abstract protocol these theorems are about, so the theorems hold of the observed projections (observed_* theorems); histories with membership changes are covered by the node-level rules, correspondence and monitors only.",
   "design_ref": "DESIGN.md 4.4, 5 (C01), Appendix C",
   "note": NODE_NOTE,
